@@ -1,8 +1,8 @@
 """C10 -- actions receive faithful inputs: getargs values, `changed`, `dependencies`, `targets`, calc_dep results
 (models M2 "status" + Model/Inputs.lean; DESIGN §5 C10)
 
-(T) lean/DoitModel/Props/C10.lean: C10_changed_partial (+ C10_changed_all_when_nothing_recorded,
-    C10_needed_dep_forces_execution), C10_false_uptodate_counterexample / C10_readded_dep_counterexample /
+(T) lean/DoitModel/Props/C10.lean: C10_changed_partial (+ C10_changed_all_when_nothing_recorded, C10_changed_new_dep,
+    C10_never_dep_has_no_state, C10_needed_dep_forces_execution), C10_false_uptodate_counterexample / C10_readded_dep_counterexample /
     C10_changed_full_is_false (the full statement is false of the code on two paths), C10_getargs (+ _after_save,
     _after_remove, _group), C10_calc_same_run.
 (K) histories (file edits / touches / deletions, task redefinition, forget, checker switches, runs with failures,
@@ -694,6 +694,8 @@ def _judge(case, obs, tr, msteps, psteps, vsteps, v):
         if stop_at is not None and i >= stop_at:
             break
         ps = psteps[idx]
+        v.count('hypothesis:executes+' + ('a-false-uptodate-item (outside C10_changed_partial)' if ps['falseItem']
+                                          else 'no-false-uptodate-item (C10_changed_partial applies)'))
         for p, cls in ps['classes']:
             v.count('dep-class:' + cls)
         bad_names = [x for key in okw for x in okw[key] if not isinstance(x, int)]
